@@ -95,10 +95,13 @@ fn env_step(_a: Address) {
         set_bits(&e.loc, 0b10);
         e.other_holds = true;
         e.other_wins_left -= 1;
-        e.patience = 2;
+        e.patience = unsafe { PATIENCE };
         e.steps += 1;
     }
 }
+
+pub static mut WINS: u8 = 2;
+pub static mut PATIENCE: u8 = 2;
 
 fn scenario<VM: VMBinding>(s: &mut Src, obj_addr: usize, loc: Loc) {
     let obj = unsafe { ObjectReference::from_raw_address_unchecked(Address::from_usize(obj_addr)) };
@@ -118,7 +121,7 @@ fn scenario<VM: VMBinding>(s: &mut Src, obj_addr: usize, loc: Loc) {
         set_bits(&loc, init);
         COPY_RESULT = p_copy as usize;
         COPY_CALLS = 0;
-        ENV = Some(Env { src: s as *mut Src, loc, active: true, self_holds: false, other_holds: init == 0b10, other_wins_left: 2, patience: 2, other_published: false, other_ptr: p_other, steps: 0 });
+        ENV = Some(Env { src: s as *mut Src, loc, active: true, self_holds: false, other_holds: init == 0b10, other_wins_left: WINS, patience: PATIENCE, other_published: false, other_ptr: p_other, steps: 0 });
         verif_env::STEP = Some(env_step);
     }
     let st = attempt_to_forward::<VM>(obj);
@@ -197,8 +200,26 @@ pub fn c17_side_bits(s: &mut Src) {
     scenario::<VmA>(s, base as usize + 8, loc);
 }
 
+/// Thorough tier: larger interference budget (other tracers win up to 3 times, 3 steps of patience).
+pub fn c17_shared_header_word_deep(s: &mut Src) {
+    unsafe {
+        WINS = 3;
+        PATIENCE = 3;
+    }
+    c17_shared_header_word(s)
+}
+pub fn c17_side_bits_deep(s: &mut Src) {
+    unsafe {
+        WINS = 3;
+        PATIENCE = 3;
+    }
+    c17_side_bits(s)
+}
+
 harnesses! {
     #[kani::unwind(8)] #[kani::stub(alloc::fmt::format, crate::env::stub_format)] c17_shared_header_word; // timeout=900
     #[kani::unwind(8)] #[kani::stub(alloc::fmt::format, crate::env::stub_format)] c17_separate_header_byte; // timeout=900
     #[kani::unwind(8)] #[kani::stub(alloc::fmt::format, crate::env::stub_format)] c17_side_bits; // timeout=900
+    #[kani::unwind(12)] #[kani::stub(alloc::fmt::format, crate::env::stub_format)] c17_shared_header_word_deep; // tier=thorough timeout=1800
+    #[kani::unwind(12)] #[kani::stub(alloc::fmt::format, crate::env::stub_format)] c17_side_bits_deep; // tier=thorough timeout=1800
 }
